@@ -140,10 +140,14 @@ Lemma wall_jan1 Y : wall_of Y 1 1 0 0 0 0 = days_before_year Y * us_per_day.
 Proof. unfold wall_of. rewrite ymd2ord_jan1. lia. Qed.
 Lemma wall_dec31 Y : wall_of Y 12 31 23 59 59 999999 = days_before_year (Y + 1) * us_per_day - 1.
 Proof. unfold wall_of. rewrite ymd2ord_dec31, upd_val. lia. Qed.
+Lemma dby_nonneg Y : 0 <= days_before_year Y <-> 1 <= Y.
+Proof. unfold days_before_year. lia. Qed.
+Lemma dby_le Y : days_before_year (Y + 1) <= 3652059 <-> Y <= 9999.
+Proof. unfold days_before_year. lia. Qed.
 Lemma jan1_nonneg Y : 0 <= wall_of Y 1 1 0 0 0 0 <-> 1 <= Y.
-Proof. rewrite wall_jan1, upd_val. unfold days_before_year. lia. Qed.
+Proof. rewrite wall_jan1, upd_val, <- dby_nonneg. lia. Qed.
 Lemma dec31_in_range Y : wall_of Y 12 31 23 59 59 999999 <= 315537897599999999 <-> Y <= 9999.
-Proof. rewrite wall_dec31, upd_val. unfold days_before_year. lia. Qed.
+Proof. rewrite wall_dec31, upd_val, <- dby_le. lia. Qed.
 
 Lemma time0_ok : time_okb 0 0 0 0 = true. Proof. reflexivity. Qed.
 Lemma time_end_ok : time_okb 23 59 59 999999 = true. Proof. reflexivity. Qed.
@@ -152,6 +156,26 @@ Lemma unit_lo_ws_irrelevant u ws W : u <> 4 -> unit_lo u ws W = unit_lo u 0 W.
 Proof. intros H. unfold unit_lo. destruct u as [|p|p]; try reflexivity. do 3 (destruct p; try reflexivity). lia. Qed.
 Lemma unit_hi_ws_irrelevant u ws W : u <> 4 -> unit_hi u ws W = unit_hi u 0 W.
 Proof. intros H. unfold unit_hi. destruct u as [|p|p]; try reflexivity. do 3 (destruct p; try reflexivity). lia. Qed.
+
+
+Lemma unit_lo_5 ws W : unit_lo 5 ws W = wall_of (f_year W) (f_month W) 1 0 0 0 0. Proof. reflexivity. Qed.
+Lemma unit_lo_6 ws W : unit_lo 6 ws W = wall_of (f_year W) 1 1 0 0 0 0. Proof. reflexivity. Qed.
+Lemma unit_lo_7 ws W : unit_lo 7 ws W = wall_of (f_year W - f_year W mod 10) 1 1 0 0 0 0. Proof. reflexivity. Qed.
+Lemma unit_lo_8 ws W : unit_lo 8 ws W = wall_of (f_year W - 1 - (f_year W - 1) mod 100 + 1) 1 1 0 0 0 0. Proof. reflexivity. Qed.
+Lemma unit_hi_5 ws W : unit_hi 5 ws W = wall_of (f_year W) (f_month W) (dim (f_year W) (f_month W)) 23 59 59 999999. Proof. reflexivity. Qed.
+Lemma unit_hi_6 ws W : unit_hi 6 ws W = wall_of (f_year W) 12 31 23 59 59 999999. Proof. reflexivity. Qed.
+Lemma unit_hi_7 ws W : unit_hi 7 ws W = wall_of (f_year W - f_year W mod 10 + 9) 12 31 23 59 59 999999. Proof. reflexivity. Qed.
+Lemma unit_hi_8 ws W : unit_hi 8 ws W = wall_of (f_year W - 1 - (f_year W - 1) mod 100 + 100) 12 31 23 59 59 999999. Proof. reflexivity. Qed.
+
+Lemma unit_id_5 ws W : unit_id 5 ws W = f_year W * 12 + (f_month W - 1). Proof. reflexivity. Qed.
+Lemma unit_id_6 ws W : unit_id 6 ws W = f_year W. Proof. reflexivity. Qed.
+Lemma hi5_le_hi6 W : unit_hi 5 0 W <= unit_hi 6 0 W.
+Proof.
+  pose proof (unit_hi_same 5 0 W ltac:(unfold valid_unit; lia)) as S. rewrite !unit_id_5 in S.
+  assert (E6 : unit_id 6 0 (unit_hi 5 0 W) = unit_id 6 0 W).
+  { rewrite !unit_id_6. pose proof (f_month_range W). pose proof (f_month_range (unit_hi 5 0 W)). lia. }
+  apply (unit_range_iff 6 0 W (unit_hi 5 0 W) ltac:(unfold valid_unit; lia)) in E6. lia.
+Qed.
 
 Lemma dt_start_non_week ws u v : non_week u -> wall_in_range (v_W v) = true ->
   boundary_ok v (unit_lo u ws (v_W v)) ->
@@ -166,23 +190,22 @@ Proof.
   - rewrite (set_from_start v 2 Hr ltac:(lia) B). fold W. replace (0 <=? unit_lo 2 0 W) with true by (unfold unit_lo; lia). reflexivity.
   - unfold dt_start_of_day. rewrite (set_from_start v 3 Hr ltac:(lia) B). fold W.
     replace (0 <=? unit_lo 3 0 W) with true by (unfold unit_lo; rewrite upd_val; lia). reflexivity.
-  - unfold py_dt_start_of_month, dt_year, dt_month. fold W.
+  - unfold py_dt_start_of_month, dt_year, dt_month. fold W. rewrite unit_lo_5 in *.
     rewrite (dt_set_ok v _ _ _ _ _ _ _ Hy (valid_month_first W) time0_ok B).
-    replace (0 <=? unit_lo 5 0 W) with true; [reflexivity|].
-    unfold unit_lo, wall_of, ymd2ord, days_before_month.
+    replace (0 <=? wall_of (f_year W) (f_month W) 1 0 0 0 0) with true; [reflexivity|].
+    unfold wall_of, ymd2ord, days_before_month.
     pose proof (dbm_nonneg (is_leap (f_year W)) (f_month W) (f_month_range W)).
-    assert (0 <= days_before_year (f_year W)) by (unfold days_before_year; lia). rewrite upd_val. lia.
-  - unfold py_dt_start_of_year, dt_year. fold W.
+    pose proof (proj2 (dby_nonneg (f_year W)) ltac:(lia)). rewrite upd_val. lia.
+  - unfold py_dt_start_of_year, dt_year. fold W. rewrite unit_lo_6 in *.
     rewrite (dt_set_ok v _ _ _ _ _ _ _ Hy (valid_jan1 _) time0_ok B).
-    replace (0 <=? unit_lo 6 0 W) with true; [reflexivity|]. unfold unit_lo. pose proof (proj2 (jan1_nonneg (f_year W)) ltac:(lia)). lia.
-  - unfold py_dt_start_of_decade, dt_year, C_YEARS_PER_DECADE. fold W. cbv zeta.
-    change (unit_lo 7 0 W) with (wall_of (f_year W - f_year W mod 10) 1 1 0 0 0 0) in *.
+    pose proof (proj2 (jan1_nonneg (f_year W)) ltac:(lia)).
+    replace (0 <=? wall_of (f_year W) 1 1 0 0 0 0) with true by lia. reflexivity.
+  - unfold py_dt_start_of_decade, dt_year, C_YEARS_PER_DECADE. fold W. cbv zeta. rewrite unit_lo_7 in *.
     pose proof (jan1_nonneg (f_year W - f_year W mod 10)) as J.
     destruct (0 <=? wall_of (f_year W - f_year W mod 10) 1 1 0 0 0 0) eqn:E.
     + apply dt_set_ok; [lia|apply valid_jan1|reflexivity|exact B].
     + apply dt_set_year_low. lia.
-  - unfold py_dt_start_of_century, dt_year, C_YEARS_PER_CENTURY. fold W. cbv zeta.
-    change (unit_lo 8 0 W) with (wall_of (f_year W - 1 - (f_year W - 1) mod 100 + 1) 1 1 0 0 0 0) in *.
+  - unfold py_dt_start_of_century, dt_year, C_YEARS_PER_CENTURY. fold W. cbv zeta. rewrite unit_lo_8 in *.
     pose proof (jan1_nonneg (f_year W - 1 - (f_year W - 1) mod 100 + 1)) as J.
     replace (0 <=? wall_of (f_year W - 1 - (f_year W - 1) mod 100 + 1) 1 1 0 0 0 0) with true by lia.
     apply dt_set_ok; [lia|apply valid_jan1|reflexivity|exact B].
@@ -201,26 +224,22 @@ Proof.
   - rewrite (set_from_end v 2 Hr ltac:(lia) B). fold W. replace (unit_hi 2 0 W <=? 315537897599999999) with true by (unfold unit_hi; lia). reflexivity.
   - unfold dt_end_of_day. rewrite (set_from_end v 3 Hr ltac:(lia) B). fold W.
     replace (unit_hi 3 0 W <=? 315537897599999999) with true by (unfold unit_hi; rewrite upd_val; lia). reflexivity.
-  - unfold py_dt_end_of_month, dt_year, dt_month, dt_days_in_month, dt_year, dt_month. fold W.
+  - unfold py_dt_end_of_month, dt_days_in_month, dt_year, dt_month. fold W.
+    pose proof (hi5_le_hi6 W) as L.
+    rewrite unit_hi_5, unit_hi_6 in *.
     rewrite (dt_set_ok v _ _ _ _ _ _ _ Hy (valid_month_last W) time_end_ok B).
-    replace (unit_hi 5 0 W <=? 315537897599999999) with true; [reflexivity|].
-    assert (unit_hi 5 0 W <= unit_hi 6 0 W).
-    { pose proof (unit_hi_same 5 0 W ltac:(unfold valid_unit; lia)) as S.
-      assert (E6 : unit_id 6 0 (unit_hi 5 0 W) = unit_id 6 0 W).
-      { unfold unit_id in *. pose proof (f_month_range W). pose proof (f_month_range (unit_hi 5 0 W)). lia. }
-      apply (unit_range_iff 6 0 W _ ltac:(unfold valid_unit; lia)) in E6. lia. }
-    pose proof (proj2 (dec31_in_range (f_year W)) ltac:(lia)). unfold unit_hi at 2 in H. lia.
-  - unfold py_dt_end_of_year, dt_year. fold W.
+    pose proof (proj2 (dec31_in_range (f_year W)) ltac:(lia)).
+    replace (wall_of (f_year W) (f_month W) (dim (f_year W) (f_month W)) 23 59 59 999999 <=? 315537897599999999) with true by lia. reflexivity.
+  - unfold py_dt_end_of_year, dt_year. fold W. rewrite unit_hi_6 in *.
     rewrite (dt_set_ok v _ _ _ _ _ _ _ Hy (valid_dec31 _) time_end_ok B).
-    replace (unit_hi 6 0 W <=? 315537897599999999) with true; [reflexivity|]. unfold unit_hi. pose proof (proj2 (dec31_in_range (f_year W)) ltac:(lia)). lia.
-  - unfold py_dt_end_of_decade, dt_year, C_YEARS_PER_DECADE. fold W. cbv zeta.
+    pose proof (proj2 (dec31_in_range (f_year W)) ltac:(lia)).
+    replace (wall_of (f_year W) 12 31 23 59 59 999999 <=? 315537897599999999) with true by lia. reflexivity.
+  - unfold py_dt_end_of_decade, dt_year, C_YEARS_PER_DECADE. fold W. cbv zeta. rewrite unit_hi_7 in *.
     replace (f_year W - f_year W mod 10 + 10 - 1) with (f_year W - f_year W mod 10 + 9) by lia.
-    change (unit_hi 7 0 W) with (wall_of (f_year W - f_year W mod 10 + 9) 12 31 23 59 59 999999) in *.
     pose proof (dec31_in_range (f_year W - f_year W mod 10 + 9)) as J.
     replace (wall_of (f_year W - f_year W mod 10 + 9) 12 31 23 59 59 999999 <=? 315537897599999999) with true by lia.
     apply dt_set_ok; [lia|apply valid_dec31|reflexivity|exact B].
-  - unfold py_dt_end_of_century, dt_year, C_YEARS_PER_CENTURY. fold W. cbv zeta.
-    change (unit_hi 8 0 W) with (wall_of (f_year W - 1 - (f_year W - 1) mod 100 + 100) 12 31 23 59 59 999999) in *.
+  - unfold py_dt_end_of_century, dt_year, C_YEARS_PER_CENTURY. fold W. cbv zeta. rewrite unit_hi_8 in *.
     pose proof (dec31_in_range (f_year W - 1 - (f_year W - 1) mod 100 + 100)) as J.
     destruct (wall_of (f_year W - 1 - (f_year W - 1) mod 100 + 100) 12 31 23 59 59 999999 <=? 315537897599999999) eqn:E.
     + apply dt_set_ok; [lia|apply valid_dec31|reflexivity|exact B].
